@@ -19,6 +19,7 @@ from core import *
 
 NEEDS = ["Replace", "ReplaceProofs", "Yaml", "YamlProofs", "Corr", "PyLib", "ReplaceEquiv", "Gen_replace"]
 ALPHA = "ra_2+= ("
+ALPHA2 = "ra_2+= (,^)."            # second sweep: the delimiters , ^ ) . in front of / behind an occurrence
 TERMS = ["r", "rr", "r_a", "a"]      # r_in of the design cannot occur over ALPHA (no i, n): r_a plays its role
 FLAGS = [(False, False), (True, False), (False, True), (True, True)]
 SEP = "|"
@@ -80,9 +81,9 @@ def impl_rep(case):
     from pyrates.backend.parser import replace
     return replace(case["eq"], case["term"], case["rep"], rhs_only=case["rhs"], lhs_only=case["lhs"])
 
-def all_strings(maxlen):
+def all_strings(maxlen, alpha=ALPHA):
     for l in range(maxlen + 1):
-        for t in itertools.product(ALPHA, repeat=l):
+        for t in itertools.product(alpha, repeat=l):
             yield "".join(t)
 
 def impl_exh(case):
@@ -92,7 +93,7 @@ def impl_exh(case):
     term, rep, big, small = case["term"], case["rep"], case["big_len"], case["small_len"]
     bad_spec, bad_impl, n, sided_bad = [], [], 0, 0
     small_out = {i: [] for i in range(len(FLAGS))}
-    for s in all_strings(big):
+    for s in all_strings(big, case.get("alpha", ALPHA)):
         is_small = len(s) <= small
         for fi, (rhs, lhs) in enumerate(FLAGS):
             if fi in (1, 2) and len(s) > case["flag_len"]:
@@ -319,7 +320,7 @@ def impl_yaml(case):
 # generators
 # ====================================================================================================
 IDENTS = ["r", "rr", "r_in", "m_in2", "in", "m", "a", "in2", "r2", "_r", "rin", "m_in"]
-OPS = ["+", "-", "*", "/", "^", " = ", "(", ")", ", ", " ", " + ", "*", " - ", "=", "[", "]", ".", "2", "2.5", "d/dt * "]
+OPS = ["+", "-", "*", "/", "^", " = ", "(", ")", ", ", ",", "^", ")", ".", "]", " ", " + ", "*", " - ", "=", "[", "]", ".", "2", "2.5", "d/dt * "]
 
 def gen_equation(rng, n=None):
     n = n or rng.randint(1, 14)
@@ -391,7 +392,7 @@ LAYOUTS = [
     dict(ops=["opc"], src="opc/rr", tgt="opc/r_in", consts=[("opc", "kk")], others=[("opc", "rr")]),
     dict(ops=["opc", "opd"], src="opd/m_in2", tgt="opc/r_in", consts=[("opc", "kk"), ("opd", "in2")], others=[("opc", "rr"), ("opd", "m_in2")]),
 ]
-DY = [0.25, 0.5, 0.75, 1.0, 1.5, 2.0, 3.0, -0.5, -1.0]
+DY = [0.25, 0.5, 0.75, 1.0, 1.5, 2.0, 3.0, -0.5, -1.0, 0.0]      # 0.0: a falsy value that must survive the round trip
 
 def gen_yaml_case(rng, mode=None):
     """mode: 'ok' (inside all guards), 'rename' (two variants of one name), 'three' (>= 3 variants), 'kind' (override of
@@ -460,7 +461,7 @@ def gen_yaml_case(rng, mode=None):
         for _ in range(rng.randint(0, 2 * nnodes)):
             s, t = rng.choice(nodes)[0], rng.choice(nodes)[0]
             edges.append([f"{s}/{lays[s]['src']}", f"{t}/{lays[t]['tgt']}", edge_tpl(rng.randrange(nvar)),
-                          {"weight": rng.choice([1.0, 1.0, 0.5, 2.0, -0.75, 0.25])}])
+                          {"weight": rng.choice([1.0, 1.0, 0.5, 2.0, -0.75, 0.25, 0.0, 0.0])}])
         return dict(name=fname, nodes=nodes, edges=edges, subs=[]), lays
     if not hier:
         tree, _ = make_flat("net", rng.randint(1, 4))
@@ -481,7 +482,7 @@ def gen_yaml_case(rng, mode=None):
             a, b = rng.choice(subs), rng.choice(subs)
             s, t = rng.choice(a[1]["nodes"])[0], rng.choice(b[1]["nodes"])[0]
             edges.append([f"{a[0]}/{s}/{lays[a[0]][s]['src']}", f"{b[0]}/{t}/{lays[b[0]][t]['tgt']}", edge_tpl(rng.randrange(nvar)),
-                          {"weight": rng.choice([1.0, 0.5, 2.0, -0.75])}])
+                          {"weight": rng.choice([1.0, 0.5, 2.0, -0.75, 0.0])}])
         tree = dict(name="top", subs=subs, nodes=[], edges=edges)
     if mode == "ok":
         # same-named templates must be identical dicts: node templates are named by layout and there is one variant, edge
@@ -665,7 +666,7 @@ def eval_lists(ctx, tag, ty, tests, items, shard):
 def coq_exhaustive(ctx, job, out):
     """the Coq model on ALL strings up to small_len for one term: mismatch counts against the real outputs"""
     term, rep, small = job["term"], job["rep"], job["small_len"]
-    body = f"Definition ins := all_upto (L {cstr(ALPHA)}) {small}.\n"
+    body = f"Definition ins := all_upto (L {cstr(job.get('alpha', ALPHA))}) {small}.\n"
     evals = []
     for fi, (rhs, lhs) in enumerate(FLAGS):
         outs = out["small"][fi].split(SEP)          # literals of ~20 kB (a single huge literal overflows coqc's stack)
@@ -700,8 +701,10 @@ def check(ctx):
         cases = [rp["case"]] if "case" in rp else []
     else:
         cases = load_corpus("C15")
-        cases += [dict(kind="exh", term=t, rep=r, big_len=big_len if r == "X" else big_len - 1, flag_len=flag_len if r == "X" else flag_len - 1,
-                       small_len=small_len if r == "X" else small_len - 1) for t in TERMS for r in (["X", ""] if quick else ["X", "", "rr"])]
+        # replacement X: the 8-letter alphabet at full length; replacement "" (remove): the 12-letter alphabet, one shorter
+        cases += [dict(kind="exh", term=t, rep=r, alpha=ALPHA2 if r == "" else ALPHA, big_len=big_len if r == "X" else big_len - 1,
+                       flag_len=flag_len if r == "X" else flag_len - 1, small_len=small_len if r == "X" else small_len - 1)
+                  for t in TERMS for r in (["X", ""] if quick else ["X", "", "rr"])]
         cases += [gen_rep_case(ctx.rng) for _ in range(n_rep)]
         cases += [gen_upd_case(ctx.rng) for _ in range(n_upd)]
         cases += [gen_yaml_case(ctx.rng) for _ in range(n_yaml)]
@@ -735,9 +738,12 @@ def check(ctx):
         m = coq_res[i]
         stats["exhaustive_coq_evaluations"] += 4 * m["strings"]
         # Spec = sided words substitution for every flag setting (since fix D52 also for the one-sided flags)
-        if r["bad_spec"] or any(m["spec_bad"]) or r["sided_bad"]:
+        # mismatching inputs found by the sweep were turned into single `rep` cases above (they carry the verdict and get the
+        # replay files, one concrete string each); the job itself is flagged only when nothing could be extracted
+        derived = bool(r["bad_spec"] or r["bad_impl"])
+        if not derived and (any(m["spec_bad"]) or r["sided_bad"]):
             bad_spec.append(i)
-        if r["bad_impl"] or any(m["impl_bad"]):
+        if not derived and any(m["impl_bad"]):
             bad_impl.append(i)
         r["coq"] = m
         r["small"] = "(omitted)"
@@ -841,7 +847,7 @@ def check(ctx):
                         "str.replace) ; upd: the edit changes at least one equation; yaml: >= 2 nodes and >= 1 edge; distinct canonical JSON. "
                         "The exhaustive stream is counted in `evaluations` only.",
                    samples=sample,
-                   extra=dict(streams=kinds, yaml_modes=modes, exhaustive_space=dict(alphabet=ALPHA, terms=TERMS, replacements=["X", ""] if quick else ["X", "", "rr"],
+                   extra=dict(streams=kinds, yaml_modes=modes, exhaustive_space=dict(alphabet=ALPHA, second_alphabet_for_replacement_empty_one_shorter=ALPHA2, terms=TERMS, replacements=["X", ""] if quick else ["X", "", "rr"],
                                                                                real_function_max_len=big_len, real_function_one_sided_flags_max_len=flag_len,
                                                                                coq_model_max_len=small_len, **stats,
                               note="Coq model (loopA with flags; replace_words_sided for equal flags) evaluated by vm_compute on ALL strings up to coq_model_max_len, "
